@@ -63,9 +63,9 @@ CHECKS["C11"] = {
 }
 CHECKS["C20"] = {
   "category": "other",
-  "technique": "contract-based deductive verification of Labware.__init__ (representation invariant wf(L) as postcondition, ValueError iff the specification is unrepresentable, per type-case) + bounded monitor for Trough.__init__ and the composition/naming clauses",
-  "text": "Proved on the real constructor body for symbolic rows, columns, virtual_rows, limits and initial volumes (absent, scalar, flat list of any length, 2-D of the labware's shape; nan / inf / None / float type-cases): a normal return establishes wf(L) - row/column ids, the well-id array, the index map (total on the grid, nothing else, troughs map every virtual row to real row 0), EVO positions, volumes laid out as given (scalar broadcast / row-major) within [0, max_volume], 0 <= min_volume < max_volume, history == [('initial', copy of the volumes)] - and ValueError is raised for exactly the other specifications. This is the wf(L) that the other contracts assume.",
-  "note": "Mixed level: Trough.__init__, get_trough_component_names and get_initial_composition (one-hot composition, default names, names for empty/unknown wells) are covered by the bounded monitor only; get_initial_composition enters the constructor proof through an assumed summary. bool sizes are outside the universe; float = real.",
+  "technique": "contract-based deductive verification of Labware.__init__ and Trough.__init__ (representation invariant wf(L) as postcondition, ValueError iff the specification is unrepresentable, per type-case), get_initial_composition and get_trough_component_names (one 100 % component per filled well / column, default names, rejected names) + bounded monitor for larger shapes",
+  "text": "Proved on the real constructor body for symbolic rows, columns, virtual_rows, limits and initial volumes (absent, scalar, flat list of any length, 2-D of the labware's shape; nan / inf / None / float type-cases): a normal return establishes wf(L) - row/column ids, the well-id array, the index map (total on the grid, nothing else, troughs map every virtual row to real row 0), EVO positions, volumes laid out as given (scalar broadcast / row-major) within [0, max_volume], 0 <= min_volume < max_volume, history == [('initial', copy of the volumes)] - and ValueError is raised for exactly the other specifications. This is the wf(L) that the other contracts assume. Trough.__init__ (real body, with Labware.__init__, get_trough_component_names and get_initial_composition inlined) is proved for 1 and 2 columns with symbolic virtual_rows, limits, per-column / scalar volumes and names (absent, a str, lists with None entries, wrong lengths): the same wf(L) with every virtual row mapped to real row 0, per-column volumes, and exactly one 100 % component per filled column (given name, else <name>.column_NN on multi-column troughs, else the trough's name), ValueError otherwise. get_initial_composition / get_trough_component_names are proved on their own for 1x1 .. 2x2 and 3x1 well arrays / 1-3 columns with symbolic volumes and names.",
+  "note": "Mixed level: in the proof of Labware.__init__ for symbolic shapes get_initial_composition enters through an opaque summary (its own contract is proved for concrete small shapes only; larger shapes: bounded monitor). The default name of single-row multi-column plates is not fixed by the property: either <name> or <name>.<well> is accepted. bool sizes are outside the universe; float = real.",
 }
 CHECKS["C01"] = {
   "category": "other",
@@ -91,16 +91,16 @@ _BOUNDED_ONLY = {
 _C13 = _BOUNDED_ONLY.pop("C13")
 CHECKS["C13"] = {
   "category": "other",
-  "technique": "contract-based deductive verification of commands.evo_aspirate / evo_dispense (postcondition: command == EVOware rope of the arguments, selection called with the labware dimensions and the 0/1 array of exactly the given wells; raise iff the call cannot be expressed) + bounded monitor for the worklist methods and evo_wash",
+  "technique": "contract-based deductive verification of commands.evo_aspirate / evo_dispense (postcondition: command == EVOware rope of the arguments, selection called with the labware dimensions and the 0/1 array of exactly the given wells; raise iff the call cannot be expressed) ; evo_wash, require_single_column_selection and the EvoWorklist.evo_* methods (command appended after the tracked update, nothing appended on a raise, no step above the worklist's max_volume) + bounded monitor for longer lists and sessions",
   "text": "Proved on the real bodies for 1-2 wells/tips with symbolic ids, tips (ints and Tip members), scalar and per-tip volumes, grid/site/arm, liquid class: the returned command equals 'B;Aspirate|Dispense(mask,\"lc\",slot1..slot8,0,0,0,0,grid,site-1,1,\"sel\",0,arm);' with mask = OR of the tips, slot t = the 2-decimal volume paired with tip t (0 otherwise), and the selection string computed (C12 contract) from exactly the given wells; ValueError iff grid/site/arm/volume/liquid class are out of range, tips are not distinct ascending tips 1-8, wells are not strictly ascending within one column; InvalidOperationError iff a volume exceeds max_volume. " + _C13,
-  "note": "Mixed level: require_single_column_selection enters through an assumed summary (validated by the bounded monitor); evo_get_selection through its C12 contract; EvoWorklist.evo_* and evo_wash are covered by the bounded monitor. Lists longer than 2 are bounded. bool/float grid, site, arm are outside the universe.",
+  "note": "Mixed level: require_single_column_selection is proved for arrays of any shape (numpy.any(axis=0).sum() modelled by the counting facts c>=1 iff some column, c>=2 iff two columns); evo_get_selection enters through its C12 contract. Lists longer than 2 wells/tips and operation sessions are bounded. bool/float grid, site, arm are outside the universe.",
 }
 _C16 = _BOUNDED_ONLY.pop("C16")
 CHECKS["C16"] = {
   "category": "other",
   "technique": "relational (product-program) reasoning by syntactic alignment of the two real transfer bodies + hierarchy/frame obligations over the ast + contracts of the device-specific numbering (C08) and of the refusing base methods; bounded differential monitor",
   "text": "Relational obligations over the real source: EvoWorklist.transfer and FluentWorklist.transfer are statement-by-statement the same program except for the body of the deprecated wash_scheme=None branch (excluded by the property) and assert-vs-raise for incompatible lengths (complementary conditions); both resolve their helpers to the same definitions; neither class overrides a shared method; FluentWorklist.__init__ forwards unchanged; the device-specific numbering is used only for the position argument of A/D records and the destination range of R records, where the two get_well_position contracts (C08) differ exactly on troughs; BaseWorklist._get_well_position / transfer are proved to always raise TypeError / CompatibilityError with nothing appended. " + _C16,
-  "note": "Mixed: the relational part is syntactic (equal programs over equal callees are equivalent: a sufficient condition - a semantics-preserving edit of only one copy would be reported and then has to be re-aligned); the end-to-end agreement on operation programs is explored by the bounded differential monitor. Known finding: Fluent distribute source range (C01).",
+  "note": "Mixed: the relational part is syntactic after normalisation (docstrings, annotations, logger calls, exception messages, names of locals are ignored; statements aligned by a sequence diff); equal programs over equal callees are equivalent: a sufficient condition - any other semantics-preserving edit of only one copy fails the named statement obligation and has to be re-aligned; the end-to-end agreement on operation programs is explored by the bounded differential monitor. Known finding: Fluent distribute source range (C01).",
 }
 _C07 = _BOUNDED_ONLY.pop("C07")
 CHECKS["C07"] = {
@@ -128,7 +128,7 @@ CHECKS["C05"] = {
   "category": "other",
   "technique": "contract-based deductive verification: combine_composition against the ideal mixing function (all components, shared names), Labware.add's composition branch (mixture at the addressed real well, frame on all other wells and components), get_well_composition, removal invariance as a frame clause of remove; mixing algebra lemmas (nonlinear real arithmetic, z3) + bounded exact-Fraction monitor for histories and naming",
   "text": "Proved on the real bodies: combine_composition returns None iff an input is None, otherwise exactly the components of A and B with fraction (vA*fA + vB*fB)/(vA+vB) (0 for absent), normalised and within [0,1] when the inputs are (dicts of 0-2 symbolic components with possibly shared names); Labware.add with a composition sets, at the addressed real well (troughs: the aliased one), every component to that mixture with the well's previous volume, keeps fractions summing to 1, leaves every other well and component untouched, changes nothing when rejected or when the well stays empty; remove never touches the composition (frame); get_well_composition returns exactly the positive fractions. Lemmas: mixture bounded, normalised, component amount conserved ((vA+vB)*mix == vA*fA + vB*fB). " + _C05,
-  "note": "Mixed: histories of operations (serial dilutions, conservation across labware), default / explicit naming (get_initial_composition, trough names) are explored by the bounded monitor. Symbolic labware carries two named components; incoming liquids 1-2 components. float = real.",
+  "note": "Mixed: histories of operations (serial dilutions, conservation across labware) are explored by the bounded monitor. Initial naming: get_initial_composition and get_trough_component_names are proved for small concrete shapes (1x1..2x2, 3x1; 1-3 columns) with symbolic volumes and names, larger shapes bounded. Symbolic labware carries two named components; incoming liquids 0-2 components ({} = untracked liquid dilutes). float = real.",
 }
 _C14 = _BOUNDED_ONLY.pop("C14")
 CHECKS["C14"] = {
